@@ -117,7 +117,7 @@ def _build():
         ("C20", "contracts on Linter.lint (count, reports, no mutation), every lint rule, main's check-mode exit, _get_col / "
                 "current_indent (rfind by its specification)"),
     ]:
-        add(Check(pr, comp + (["gen_all"] if pr == "C09" else []) + (["gen_c", "gen_py"] if pr == "C11" else []), explanation=ex, standins={"C09": ["lexer_strings", "case_converters"], "C13": ["lexer_strings", "string_literals"],
+        add(Check(pr, comp + (["gen_all"] if pr == "C09" else []) + (["gen_c", "gen_py"] if pr == "C11" else []) + (["gen_c"] if pr == "C17" else []), explanation=ex, standins={"C09": ["lexer_strings", "case_converters"], "C13": ["lexer_strings", "string_literals"],
                                                      "C20": ["lexer_strings"]}.get(pr)))
     add(Check("C01", bp_mods + ["py_ast"], explanation="Python encoder layout: contracts on bp.py (leaf bit copier with quantified "
               "bit-view invariant; cursor/frame/call-order contracts of every processor class against the abstract "
